@@ -4,6 +4,7 @@ pub mod vector {
 //@include commitment/vector_types.rs
 //@include commitment/vector_commit.rs
 //@include commitment/vector_decommit.rs
+//@include commitment/vector_merkle_lemmas.rs
 } // mod vector
 pub mod table {
 //@include commitment/table_config.rs
